@@ -643,3 +643,245 @@ func runC11_12(c *core.Ctx) {
 		})
 	}
 }
+
+func init() {
+	register(&core.Rule{ID: "C11.13", Prop: "C11", MinSites: 2,
+		Desc: "Peek counts what it hands out: in linkedlist.Peek/PeekWithBytes every append of a segment view X[:k] to the result is followed by cum += k (the same k) before the next append, and every cum += k follows such an append; the walk leaves early only where cum has reached maxBytes (an `==`/`>=` test of the two); and the list walk runs from llb.head over iter.next to nil",
+		Run:  runC11_13})
+	alias("C10", "C10.21", "C11.13", "elastic.Buffer.Peek assembles its segments through linkedlist.PeekWithBytes")
+	alias("C02", "C02.20", "C11.13", "the writev vector of a flush is what Peek assembled: a segment left out or handed out twice corrupts the stream")
+}
+
+func runC11_13(c *core.Ctx) {
+	a := llAnchors(c)
+	if a == nil {
+		return
+	}
+	nextF := c.P.Field(a.pk, "node", "next")
+	if !c.Need("node.next", nextF) {
+		return
+	}
+	for _, f := range a.funcs {
+		name := nameOf(f.Obj)
+		if name != "Peek" && name != "PeekWithBytes" {
+			continue
+		}
+		isSegAppend := func(n ast.Node) types.Object { // R = append(R, X[:k]) → k
+			as, ok := n.(*ast.AssignStmt)
+			if !ok || len(as.Rhs) != 1 {
+				return nil
+			}
+			call, ok := ast.Unparen(as.Rhs[0]).(*ast.CallExpr)
+			if !ok || len(call.Args) != 2 {
+				return nil
+			}
+			if id, ok := call.Fun.(*ast.Ident); !ok || id.Name != "append" {
+				return nil
+			}
+			se, ok := ast.Unparen(call.Args[1]).(*ast.SliceExpr)
+			if !ok || se.Low != nil || se.High == nil {
+				return nil
+			}
+			return flow.ObjOf(f.Info, se.High)
+		}
+		// the lengths segments are cut to, and the running totals they are added to (a helper absorbed into the
+		// function has its own copies of both)
+		appendKs := map[types.Object]bool{}
+		ast.Inspect(f.Decl.Body, func(n ast.Node) bool {
+			if st, ok := n.(ast.Stmt); ok {
+				if k := isSegAppend(st); k != nil {
+					appendKs[k] = true
+				}
+			}
+			return true
+		})
+		cums := map[types.Object]bool{}
+		isCum := func(n ast.Node) types.Object { // cum += k → k
+			as, ok := n.(*ast.AssignStmt)
+			if !ok || as.Tok != token.ADD_ASSIGN || len(as.Lhs) != 1 {
+				return nil
+			}
+			k := flow.ObjOf(f.Info, as.Rhs[0])
+			if k == nil || !appendKs[k] {
+				return nil
+			}
+			if o := flow.ObjOf(f.Info, as.Lhs[0]); o != nil {
+				cums[o] = true
+			}
+			return k
+		}
+		ast.Inspect(f.Decl.Body, func(n ast.Node) bool {
+			if st, ok := n.(ast.Stmt); ok {
+				isCum(st)
+			}
+			return true
+		})
+		if len(appendKs) == 0 {
+			// the walk was moved into a helper that could not be absorbed (called in a condition, say): not this rule's to judge
+			delegated := false
+			for _, call := range callsIn(f.Decl.Body, true) {
+				if cf := flow.CalleeFunc(f.Info, call); cf != nil && c.P.InModule(cf) && !core.InBaseline(cf) {
+					delegated = true
+				}
+			}
+			if delegated {
+				c.Ok(f.Name, "walk delegated to a helper outside the baseline", f.Decl.Pos(), "not analysed here")
+				continue
+			}
+		}
+		if len(cums) == 0 {
+			c.Violate(f.Name, "running total", f.Decl.Pos(), name+" keeps no running total (`cum += k` with the k a segment was cut to): nothing bounds the walk by maxBytes")
+			continue
+		}
+		const (
+			fAppended = 1 << iota // a segment was appended and not yet counted
+			fCounted              // everything appended so far was counted
+		)
+		p := &flow.Problem{Must: true, Entry: fCounted}
+		p.Node = func(b *flow.Block, i int, n ast.Node, in uint64) uint64 {
+			if isSegAppend(n) != nil {
+				return in&^fCounted | fAppended
+			}
+			if isCum(n) != nil {
+				return in&^fAppended | fCounted
+			}
+			return in
+		}
+		sol := f.Graph().Solve(p)
+		apps, ncum := 0, 0
+		appK, cumK := map[types.Object]bool{}, map[types.Object]bool{}
+		sol.Walk(func(b *flow.Block, i int, n ast.Node, before uint64) {
+			if k := isSegAppend(n); k != nil {
+				apps++
+				appK[k] = true
+				c.Check(before&fCounted != 0, f.Name, "segment append #"+itoa(apps), n.Pos(), "the previous segment was counted before this one is appended",
+					name+" appends a segment while an earlier one has not been added to the running total: the total falls behind what was handed out, so more than maxBytes are returned (a flush then sends bytes beyond what Discard will remove)")
+			}
+			if k := isCum(n); k != nil {
+				ncum++
+				cumK[k] = true
+				c.Check(before&fAppended != 0, f.Name, "count of a segment #"+itoa(ncum), n.Pos(), "counts the segment that was just appended",
+					name+" adds to the running total without having appended a segment since the last addition: a segment is counted but not handed out (the caller gets fewer bytes than Peek reports it may discard)")
+			}
+		})
+		sol.AtExit(func(b *flow.Block, facts uint64) {
+			ok := true
+			if b.Return != nil && len(b.Return.Results) == 2 && !flow.IsNil(f.Info, b.Return.Results[1]) {
+				return // the short-buffer refusal
+			}
+			if facts&fCounted == 0 {
+				ok = false
+			}
+			c.Check(ok, f.Name, "everything appended was counted", b.Return.Pos(), "no uncounted segment at return", name+" can return with a segment appended but not counted")
+		})
+		same := len(appK) > 0 && len(appK) == len(cumK)
+		for k := range appK {
+			if !cumK[k] {
+				same = false
+			}
+		}
+		c.Check(same && apps > 0, f.Name, "appended length = counted length", f.Decl.Pos(), "the k of X[:k] is the k of cum += k", name+" counts a different length than the one it cuts the segment to (or appends no segment view at all)")
+		// early exits of the walks
+		var loops []ast.Stmt
+		ast.Inspect(f.Decl.Body, func(n ast.Node) bool {
+			switch y := n.(type) {
+			case *ast.ForStmt:
+				has := false
+				ast.Inspect(y.Body, func(m ast.Node) bool {
+					if st, ok := m.(ast.Stmt); ok && isSegAppend(st) != nil {
+						has = true
+					}
+					return true
+				})
+				if has {
+					loops = append(loops, y)
+				}
+			case *ast.RangeStmt:
+				has := false
+				ast.Inspect(y.Body, func(m ast.Node) bool {
+					if st, ok := m.(ast.Stmt); ok && isSegAppend(st) != nil {
+						has = true
+					}
+					return true
+				})
+				if has {
+					loops = append(loops, y)
+				}
+			}
+			return true
+		})
+		for li, lp := range loops {
+			var body *ast.BlockStmt
+			if fs, ok := lp.(*ast.ForStmt); ok {
+				body = fs.Body
+				// the list walk
+				okWalk := false
+				if init, ok := fs.Init.(*ast.AssignStmt); ok && len(init.Lhs) == 1 && len(init.Rhs) == 1 && flow.FieldOf(f.Info, init.Rhs[0]) == a.head {
+					iv := flow.ObjOf(f.Info, init.Lhs[0])
+					if x, y, op, ok := flow.Cmp(fs.Cond); ok && op == token.NEQ && flow.ObjOf(f.Info, x) == iv && flow.IsNil(f.Info, y) {
+						if post, ok := fs.Post.(*ast.AssignStmt); ok && len(post.Lhs) == 1 && flow.ObjOf(f.Info, post.Lhs[0]) == iv {
+							if sel, ok := ast.Unparen(post.Rhs[0]).(*ast.SelectorExpr); ok && flow.FieldOf(f.Info, sel) == nextF && flow.ObjOf(f.Info, sel.X) == iv {
+								okWalk = true
+							}
+						}
+					}
+				}
+				c.Check(okWalk, f.Name, "list walk #"+itoa(li+1), fs.Pos(), "from llb.head over iter.next to nil", name+" does not walk the list from llb.head over each node's next to nil: nodes are skipped, visited twice, or the walk never ends")
+			} else {
+				body = lp.(*ast.RangeStmt).Body
+			}
+			okExit := true
+			var stack []ast.Node
+			ast.Inspect(body, func(n ast.Node) bool {
+				if n == nil {
+					stack = stack[:len(stack)-1]
+					return true
+				}
+				stack = append(stack, n)
+				if _, isLit := n.(*ast.FuncLit); isLit {
+					return true
+				}
+				leaves := false
+				switch y := n.(type) {
+				case *ast.BranchStmt:
+					leaves = y.Tok == token.BREAK && y.Label == nil
+					// a break inside a nested switch/select/for belongs to that statement
+					for i := len(stack) - 2; i >= 0 && leaves; i-- {
+						switch stack[i].(type) {
+						case *ast.SwitchStmt, *ast.TypeSwitchStmt, *ast.SelectStmt, *ast.ForStmt, *ast.RangeStmt:
+							leaves = false
+						}
+					}
+				case *ast.ReturnStmt:
+					leaves = true
+				}
+				if !leaves {
+					return true
+				}
+				guarded := false
+				for i := len(stack) - 2; i >= 0; i-- {
+					is, ok := stack[i].(*ast.IfStmt)
+					if !ok {
+						continue
+					}
+					inBody := i+1 < len(stack) && stack[i+1] == ast.Node(is.Body)
+					if x, y, op, ok := flow.Cmp(is.Cond); ok && inBody {
+						xo, yo := flow.ObjOf(f.Info, x), flow.ObjOf(f.Info, y)
+						if (xo != nil && cums[xo] && yo != nil && (op == token.EQL || op == token.GEQ)) || (yo != nil && cums[yo] && xo != nil && (op == token.EQL || op == token.LEQ)) {
+							guarded = true
+						}
+					}
+					break
+				}
+				if !guarded {
+					okExit = false
+				}
+				return true
+			})
+			c.Check(okExit, f.Name, "early exit of walk #"+itoa(li+1), lp.Pos(), "only where cum reached maxBytes", name+" can leave its walk over the segments before the running total has reached maxBytes: the caller gets fewer bytes than it asked for although they are queued")
+		}
+		if len(loops) == 0 {
+			c.Violate(f.Name, "walk", f.Decl.Pos(), name+" has no loop that appends segment views")
+		}
+	}
+}
